@@ -1155,6 +1155,39 @@ pub fn run(tier: Tier, replay: Option<String>) -> i32 {
                 explore_container(ctx, "slice-at-guard-page", &p, thorough, true);
             });
         }
+        // larger containers on a boundary alphabet (a different code path may start at some size)
+        for n in [64usize, 100, 257, 1000] {
+            s.spawn(move || {
+                let p = Placed::new(n, 3, false);
+                let init = labels(n);
+                let mut t = 0u64;
+                let mut ops: Vec<Op> = reduced_writes(n);
+                ops.extend(reduced_reads(n));
+                for off in [0usize, 1, 7, 8, 9, 63, 64, 65, n / 2, n - 9, n - 8, n - 1, n, n + 1] {
+                    for len in [0usize, 1, 8, 9, 16, 17, 63, 64, 65, n - off.min(n), n] {
+                        ops.push(Op::Write { off, len, mis: 1 });
+                        ops.push(Op::Read { off, len, mis: 2 });
+                        ops.push(Op::WriteSlice { off, len, mis: 0 });
+                        ops.push(Op::ReadSlice { off, len, mis: 0 });
+                        ops.push(Op::ReadFrom { off, count: len });
+                        ops.push(Op::WriteTo { off, count: len });
+                        ops.push(Op::SliceCopyToVs { off, len, dst: Dst::Same(0, n) });
+                        ops.push(Op::SliceCopyToVs { off, len, dst: Dst::Same(off.min(n) / 2, n - off.min(n) / 2) });
+                        ops.push(Op::SliceCopyFrom { ty: Ty::U64, off, len, m: len / 8 + 1 });
+                        ops.push(Op::SliceCopyTo { ty: Ty::U16, off, len, m: len / 2 });
+                        ops.push(Op::ArrCopyFrom { ty: Ty::U32, off, n: len / 4, m: len / 4 + 1 });
+                        ops.push(Op::ArrCopyTo { ty: Ty::U128, off, n: len / 16, m: len / 16 });
+                    }
+                }
+                for (k, op) in ops.iter().enumerate() {
+                    t += 1;
+                    step(ctx, "slice-large", &p, &init, op, (k % 97) as u8 + 1, &[]);
+                }
+                ctx.add_transitions(t);
+                ctx.add_traces(t);
+                ctx.add_states(1);
+            });
+        }
         #[cfg(not(feature = "xen"))]
         s.spawn(move || mmap_regions(ctx, thorough));
     });
